@@ -68,6 +68,9 @@ THEOREMS = [
     "OllamaVerif.C13.client_manifestPath_confined",
     "OllamaVerif.C13.cacheResolve_confined",
     "OllamaVerif.C13.C13_rejected_or_confined",
+    "OllamaVerif.C13.cutTag_literal",
+    "OllamaVerif.C13.parseNLoop_fuel",
+    "OllamaVerif.C13.manifest_want_ascii",
     "OllamaVerif.Tie.C13.first_sets_match",
     "OllamaVerif.Tie.C13.rest_sets_match",
     "OllamaVerif.Tie.C13.length_limits_match",
